@@ -419,14 +419,76 @@ class CondenseDataset(Contract):
         return z3.BoolVal(True)
 
 
+# --------------------------------------------------------------------------
+# EX-FX, the effect contract of Export.hdf5 used by join / split / tdms2rtdc, checked
+# against the real Export.hdf5
+# --------------------------------------------------------------------------
+import contracts.C02 as _C02   # noqa: E402
+
+
+class ExportEffects(_C02.ExportHdf5):
+    """Export.hdf5(path, ..., override) touches the file system only through `path`: an
+    existing file is removed only with override=True (OSError and no effect otherwise),
+    every write-capable handle is opened on `path`, and none is open when the call
+    returns or raises -- the effect contract EX-FX that the units of join, split and
+    tdms2rtdc assume at their call sites."""
+
+    def __init__(self, override):
+        super().__init__("hdf5", True)
+        self.override = override
+        self.name = f"Export.hdf5[effects on the file system, override={override}]"
+        for k in ("RTDCWriter", "Writer.__exit__", "Writer.store_metadata", "Writer.store_log", "Writer.store_table",
+                  "Writer.store_basin", "Writer.store_feature"):
+            self.callees.pop(k, None)
+        self.callees.update(WRITER_METHODS)
+        self.callees["store_filtered_feature"] = Fx("store_filtered_feature",
+                                                    writes=lambda a, k: [_kw(a, k, 0, "rtdc_writer").fields["h5file"]],
+                                                    result=None)
+        self.classes = dict(self.classes, **WRITER_CLASS["classes"])
+        self.class_modules = dict(self.class_modules, **WRITER_CLASS["class_modules"])
+        self.inline = set(getattr(self, "inline", ())) | set(WRITER_CLASS["inline"])
+        self.fs_spec = Spec(["/data/src.rtdc"], [])
+        self.OUT = "/data/out.rtdc~"
+
+    def inputs(self, ctx):
+        d = super().inputs(ctx)
+        d["path"] = self.OUT
+        d["override"] = self.override
+        return d
+
+    def _only_out(self, g):
+        # (creating the parent directory of `path` is part of the documented behaviour)
+        other = [e for e in g.events if e[0] != "FAULT" and os.fspath(e[1]) != self.OUT
+                 and not (e[0] == "mkdir" and os.fspath(e[1]) == os.path.dirname(self.OUT))]
+        return not other
+
+    def ensures(self, ctx, old, a, result):
+        g = fsghost.ghost_of(ctx)
+        unl = [e for e in g.events if e[0] == "unlink"]
+        return [("a normal return leaves no handle open and no failed operation swallowed",
+                 z3.BoolVal(not g.handles and not g.faults)),
+                ("every file-system operation targets the given path", z3.BoolVal(self._only_out(g))),
+                ("an existing file is removed only on request, at most once and before the file is created",
+                 z3.BoolVal(len(unl) <= (1 if self.override else 0)
+                            and all(not [x for x in g.events[:g.events.index(e)] if x[0] != "mkdir"] for e in unl))),
+                ("the file is created (opened write-capable) exactly once",
+                 z3.BoolVal(len([e for e in g.events if e[0] == "open" and e[3] not in ("r", "rb")]) == 1))]
+
+    def exceptional(self, ctx, old, a, exc):
+        g = fsghost.ghost_of(ctx)
+        refused = exc.name == "OSError" and not g.events and not self.override
+        return z3.BoolVal((refused or bool(g.faults)) and not g.handles and self._only_out(g))
+
+
 UNITS = []
 for _cfg in CONFIGS:
     UNITS += [Compress(_cfg), Repack(_cfg), Condense(_cfg)]
-UNITS += [CondenseDataset()]
+UNITS += [CondenseDataset(), ExportEffects(True), ExportEffects(False)]
 
 TRUSTED = [RTDC_COPY, GET_COMMAND_LOG, ASSEMBLE_WARNINGS, HASHFILE, HASHOBJ, NewDataset()] + list(WRITER_METHODS.values())
 TRUSTED_BASE = ["EX-FX: Export.hdf5(path, override) removes an existing file only with override=True, creates `path`, writes "
-                "through its own RTDCWriter and closes it before returning (assumed effect contract)",
+                "through its own RTDCWriter and closes it before returning (effect contract at the call sites; checked against the real "
+                "Export.hdf5 by the units Export.hdf5[effects on the file system, ...])",
                 "P-RENAME (rename is atomic)", "H-OPEN (an HDF5 file is modified only through handles opened on its path)",
                 "a failing operation has no effect on files other than the one it targets"]
 ASSUMPTIONS = [
